@@ -275,6 +275,63 @@ def gen(ck: Check, decl):
     return scen, n
 
 
+def connect_phase_requests(ck: Check) -> int:
+    import simnet
+    from aioesphomeapi import api_pb2 as pb
+    from aioesphomeapi.client import APIClient
+    from aioesphomeapi.connection import PROTO_TO_MESSAGE_TYPE
+
+    REQ = {"ping": (pb.PingRequest, pb.PingResponse), "time": (pb.GetTimeRequest, pb.GetTimeResponse),
+           "disc": (pb.DisconnectRequest, pb.DisconnectResponse)}
+    n = 0
+    for login in (False, True):
+        stages = ["before-hello"] + (["between-hello-and-login"] if login else []) + ["after"]
+        for stage in stages:
+            for kind, (req, resp) in REQ.items():
+                for together in (False, True):      # the request alone in its read, or in the same read as the next response
+                    net = simnet.Net()
+                    loop = net.loop
+                    net.auto_resolve = net.auto_sock = True
+                    client = APIClient("10.0.0.1", 6053, "pw" if login else None, keepalive=1e6)
+                    stops = []
+
+                    async def on_stop(expected, stops=stops):
+                        stops.append(expected)
+
+                    o = simnet.spawn(loop, client.connect(on_stop=on_stop, login=login), "connect")
+                    loop.run_idle()
+                    script = [simnet.hello_response(1, 10, "")] + ([simnet.connect_response(False)] if login else [])
+                    pos = {"before-hello": 0, "between-hello-and-login": 1, "after": len(script)}[stage]
+                    script.insert(pos, req())
+                    before = len(net.written())
+                    i = 0
+                    while i < len(script):
+                        chunk = [script[i]]
+                        if together and isinstance(script[i], req) and i + 1 < len(script):
+                            chunk.append(script[i + 1])
+                        net.send(*chunk)
+                        loop.run_idle()
+                        i += len(chunk)
+                    got = [ty for _, ty, _ in net.written()[before:]]
+                    want_ty = PROTO_TO_MESSAGE_TYPE[resp]
+                    n += 1
+                    rep = {"login": login, "stage": stage, "request": kind, "same_read_as_next_response": together,
+                           "written_types": got, "connect_outcome": o.cls()}
+                    if got.count(want_ty) != 1:
+                        ck.violation(f"c12:request-during-connect:{kind}:{stage}",
+                                     f"the device sent {req.__name__} {stage.replace('-', ' ')} (login={login}): {got.count(want_ty)} "
+                                     f"{resp.__name__} written (types written {got}); the device's requests are answered with the "
+                                     "matching response", rep)
+                    if kind == "disc":
+                        conn = client._connection
+                        closed = conn is None or conn.is_connected is False
+                        if not closed or (stage == "after" and stops != [True]):
+                            ck.violation(f"c12:disconnect-request-during-connect:{stage}",
+                                         f"DisconnectRequest {stage} (login={login}): closed={closed}, stop callback {stops}", rep)
+                    net.close()
+    return n
+
+
 def pre(ck: Check):
     import translate
 
@@ -331,6 +388,10 @@ def run(ck: Check):
                                     {"op": batches[j][k], "ops": batches[j][: k + 1][-8:], "model": m, "impl": o})
                     break
             pos += len(batches[j])
+    # ---- the device's own requests are answered from the moment the session can receive: during the hello / login
+    # exchange as well as afterwards (real connect path over SimNet)
+    during = connect_phase_requests(ck)
+    dist["requests_during_connect"] = during
     ck.coverage.update({
         "evaluations": len(scen), "model_ops_compared": compared,
         "distinct_nontrivial": len({(tuple(map(str, o)), str(s)) for o, _, s in scen}),
